@@ -35,7 +35,14 @@ var (
 	Local = real.UTC
 )
 
-func Now() Time                                { return real.Unix(0, simrt.S.NowNS()).UTC() }
+func Now() Time {
+	s := simrt.S
+	t := real.Unix(0, s.NowNS())
+	if off := s.Cfg.TZOffset; off != 0 {
+		return t.In(real.FixedZone("", off))
+	}
+	return t.UTC()
+}
 func Sleep(d Duration)                         { simrt.S.SleepNS(int64(d)) }
 func Since(t Time) Duration                    { return Now().Sub(t) }
 func Until(t Time) Duration                    { return t.Sub(Now()) }
